@@ -42,12 +42,16 @@ def gen_json(rng, depth=0):
             return rng.choice([True, False])
         return None
     if r < 0.7:
-        return [gen_json(rng, depth + 1) for _ in range(rng.randint(0, 3))]
+        items = [gen_json(rng, depth + 1) for _ in range(rng.randint(0, 3))]
+        if rng.random() < 0.2:
+            # a tuple (JSON writes it as an array), often holding a dictionary: everything below it is metadata like any other
+            return {'__tuple__': items + ([gen_dict(rng, depth + 1)] if depth < 2 and rng.random() < 0.7 else [])}
+        return items
     return gen_dict(rng, depth + 1, allow_empty=True)
 
 
 def gen_dict(rng, depth=0, allow_empty=False):
-    keys = ['a', 'b', 'path', 'stats', 'é', 'Z', 'z', 'aa', '', 'x"y', '10', '9', '😀', 'new\nline', 'k k', '\x7f',
+    keys = ['a', 'b', 'path', 'stats', 'é', 'Z', 'z', 'aa', '', 'x"y', '10', '9', '😀', 'new\nline', 'k k', '\x7f', '\uff21', '\ue000', '\U00010000',
             # metadata that MENTIONS what headers declare: never an instruction to the reader
             'mimetype', 'encoding', 'line_endings', 'length', 'indent', 'charset', 'type', 'format']
     n = rng.randint(0 if allow_empty else 1, 4)
@@ -217,7 +221,7 @@ def expected_records(main, calls):
             o = {'format': 'json'}
             if pyval(c[2]) is not None:
                 o['encoding'] = pyval(c[2])
-            out.append(dict(section='.' * (level + 1) + 'meta', level=level + 1, options=o, metadata=pyval(c[1])))
+            out.append(dict(section='.' * (level + 1) + 'meta', level=level + 1, options=o, metadata=as_json_value(pyval(c[1]))))
         elif name == 'write_diff':
             b = pyval(c[1])
             o = {}
@@ -233,6 +237,15 @@ def expected_records(main, calls):
                 b = b + nl
             out.append(dict(section='...diff', level=3, options=o, diff=b))
     return out
+
+
+def as_json_value(x):
+    """What a JSON reader gives back for a value a JSON writer accepts: tuples come back as lists."""
+    if isinstance(x, dict):
+        return {k: as_json_value(v) for k, v in x.items()}
+    if isinstance(x, (list, tuple)):
+        return [as_json_value(v) for v in x]
+    return x
 
 
 def compare_records(expected, records):
